@@ -13,7 +13,7 @@ type PtrSet struct {
 	alts []ptrAlt
 }
 
-const maxPtrAlts = 320
+const maxPtrAlts = 1100
 
 func (m *Machine) ptrAlts(v value) ([]ptrAlt, bool) {
 	switch p := v.(type) {
@@ -28,21 +28,17 @@ func (m *Machine) ptrAlts(v value) ([]ptrAlt, bool) {
 // mkPtrSet normalises alternatives (drops false guards, merges equal pointers).
 func (m *Machine) mkPtrSet(alts []ptrAlt) (value, bool) {
 	var out []ptrAlt
+	pos := make(map[*value]int, len(alts))
 	for _, a := range alts {
 		if a.g.IsFalse() {
 			continue
 		}
-		found := false
-		for i := range out {
-			if out[i].p == a.p {
-				out[i].g = m.tt.Or(out[i].g, a.g)
-				found = true
-				break
-			}
+		if i, ok := pos[a.p]; ok {
+			out[i].g = m.tt.Or(out[i].g, a.g)
+			continue
 		}
-		if !found {
-			out = append(out, a)
-		}
+		pos[a.p] = len(out)
+		out = append(out, a)
 	}
 	if len(out) == 0 {
 		return (*value)(nil), true
@@ -112,8 +108,59 @@ func (m *Machine) resolvePtr(v value) value {
 	return ps.alts[k].p
 }
 
+// mergeGuarded merges values selected by mutually exclusive guards.
+func (m *Machine) mergeGuarded(gs []*Term, vs []value) (value, bool) {
+	if len(vs) == 0 {
+		return nil, false
+	}
+	allPtr, allSlice := true, true
+	for _, v := range vs {
+		if _, ok := v.(*value); !ok {
+			allPtr = false
+		}
+		if _, ok := v.([]value); !ok {
+			allSlice = false
+		}
+	}
+	if allPtr {
+		alts := make([]ptrAlt, len(vs))
+		for i, v := range vs {
+			alts[i] = ptrAlt{gs[i], v.(*value)}
+		}
+		return m.mkPtrSet(alts)
+	}
+	if allSlice {
+		alts := make([]sliceAlt, len(vs))
+		for i, v := range vs {
+			alts[i] = sliceAlt{gs[i], v.([]value)}
+		}
+		return m.mkSliceSet(alts)
+	}
+	res := vs[len(vs)-1]
+	for i := len(vs) - 2; i >= 0; i-- {
+		r, ok := m.mergeVals(gs[i], vs[i], res)
+		if !ok {
+			return nil, false
+		}
+		res = r
+	}
+	return res, true
+}
+
 func (m *Machine) ptrSetLoad(ps *PtrSet) value {
 	alts := m.nonNilAlts(ps)
+	if len(alts) > 0 {
+		gs := make([]*Term, len(alts))
+		vs := make([]value, len(alts))
+		for i, a := range alts {
+			gs[i] = a.g
+			vs[i] = load(a.p)
+		}
+		if r, ok := m.mergeGuarded(gs, vs); ok {
+			return r
+		}
+		return load(m.resolvePtr(ps).(*value))
+	}
 	var res value
 	for i := len(alts) - 1; i >= 0; i-- {
 		v := load(alts[i].p)
